@@ -297,7 +297,7 @@ Fixpoint scan_array_loop (rec : scan_t) (fuel : nat) (src : str) (i : Z) (acc : 
   | O => NoFuel
   | S f =>
       if (hd0 src =? 0) || (hd0 src =? 93) then Ok (acc, src, arrtype) else
-      match rec src acc i true with
+      match rec src acc (Z.of_nat (length acc)) true with   (* args_before = slots read so far *)
       | Ok (vs, r) => scan_array_loop rec f (skip_ws r) (i + 1) (acc ++ vs) (elem_type vs)
       | Null => Null | Unmod => Unmod | NoFuel => NoFuel
       end
@@ -411,7 +411,10 @@ Definition scan_useless (before : list av) (nb : Z) (lhs : av) : option (bool * 
 Definition scan_ellipsis (rec : scan_t) (vs : list av) (r : str) (before : list av) (nb : Z)
   : R (list av * str) :=
   match vs with
-  | [lhs] =>
+  | [] => Unmod
+  | lhs :: tl =>
+  match tl with
+  | [] =>
       let s1 := skip_ws (skipn 3 (skip_ws r)) in
       let infinite := hd0 s1 =? 93 in
       let rhsr := if infinite then Ok (None, s1)
@@ -435,7 +438,21 @@ Definition scan_ellipsis (rec : scan_t) (vs : list av) (r : str) (before : list 
           end
       | Null => Null | Unmod => Unmod | NoFuel => NoFuel
       end
-  | _ => Unmod
+  | _ :: _ =>
+    match lhs with
+    | VArr _ _ =>
+      (* an open range of arrays "[...] ... ]": delta-less when there is no
+         left neighbour of type 'a' (insert_arg_range shifts the array up) *)
+      let s1 := skip_ws (skipn 3 (skip_ws r)) in
+      if hd0 s1 =? 93 then
+        if nb <? 1 then Ok (VRep 0 0 :: vs, s1)
+        else match scan_llhs before nb with
+             | Some l => if negb (types_match (av_type l) 97) then Ok (VRep 0 0 :: vs, s1) else Unmod
+             | None => Unmod end
+      else Unmod
+    | _ => Unmod
+    end
+  end
   end.
 
 (* rtosc_scan_arg_val: (slots written, position after) *)
